@@ -57,6 +57,21 @@ def gen(chk, tier):
                 continue
             e = e_for_r(k, r)
             g.one("rk_near_n", "sm2.sign", kind="hashed", priv=b32(d), e=b32(e), script=sm2gen.script_of([k, rscalar(rng)]))
+    # (1c) x1 injected through the verification hook: corners of r = (e + x1) mod n that no nonce
+    # reaches (e + x1 >= 2n needs x1 in the top 2^-32 sliver of the field), and x1 in the gap [n, p)
+    from ..sm2gen import P
+    T256 = 1 << 256
+    x1s = [0, 1, N - 1, N, N + 1, P - 1, 2 * N - T256, 2 * N - T256 + 1, P - 2, (N + P) // 2]
+    es = [0, 1, N - 1, N, T256 - 1, T256 - 2, 2 * N - (P - 1), N - 5]
+    for x1 in x1s:
+        for ev_ in (es if not q else es[::2] + [T256 - 1]):
+            d = rscalar(rng)
+            ks = [rscalar(rng), rscalar(rng), rscalar(rng)]
+            # also make the first candidate hit r + k = n for this (e, x1) sometimes
+            r0 = (ev_ + x1) % N
+            if r0 and rng.random() < 0.3:
+                ks[0] = (N - r0) % N
+            g.one("x1_injected", "sm2.sign", kind="hashed", priv=b32(d), e=b32(ev_), x1=b32(x1), script=sm2gen.script_of(ks))
     # (2) digests solved so that r or s has leading zero bytes
     for which in ("r", "s", "t"):
         for nz in ((1, 2) if q else (1, 2, 3, 4)):
